@@ -212,8 +212,11 @@ func (e *recExporter) ExportSpans(ctx context.Context, spans []sdktrace.ReadOnly
 			err = errors.New("export failed")
 		}
 		atomic.AddInt64(&e.timedOut, 1)
+	default: // "overrun/<holdMs>/<answer>": still inside after its ctx is done (overrun.go)
+		err = e.overrun(ctx, answer)
 	}
 	e.sched.Arrive("x@exp.end") // second gate of the exporter (directed schedules only): hold a begun export
+	e.overrunHold(answer)       // (overrun.go) released, an overrunning exporter stays inside for its hold time
 	e.tw.Emit(map[string]any{"ev": "ExportEnd", "sc": e.sc, "err": errClass(err), "who": who})
 	return err
 }
